@@ -174,6 +174,40 @@ func runC15(h *Harness) {
 		}
 	}
 	tpub := h.S.Now()
+	// in half of the runs a handshake that brings a NEW distribution point arrives while a refresh cycle is running
+	// (the repository's map is written while the updater walks it)
+	if tp.Chance(1, 2) {
+		in := insts[tp.Int(len(insts))]
+		ex := w.NewLocation(LocOpts{Name: "EX", URL: "http://extra.sim/e.crl", Issuer: w.A, NVers: 1, Extra: 1, Width: 15, Base: 8})
+		// the instance knows two more locations already, so that the cycle has entries before and after the slow one
+		var more []*Location
+		for j := 0; j < 2; j++ {
+			m := w.NewLocation(LocOpts{Name: fmt.Sprintf("EK%d", j), URL: fmt.Sprintf("http://known%d.sim/k.crl", j), Issuer: w.A, NVers: 1, Extra: 1, Width: 16 + j, Base: uint32(9 + j)})
+			h.Handshake(in.n, "learn-more", w.ChainFor(m.Cert(m.Never[0]), w.A))
+			more = append(more, m)
+		}
+		h.Quiesce()
+		for _, x := range insts {
+			x.loc.SlowFirst, x.loc.Fetches = 3*time.Second, 0 // each location's next download takes a while
+		}
+		for _, m := range more {
+			m.SlowFirst, m.Fetches = 3*time.Second, 0
+		}
+		h.S.Run(func(v schedView) bool {
+			for _, t := range v.parked {
+				if t.kind == kStart && !t.client && t.Node == in.n.Name {
+					return true
+				}
+			}
+			return false
+		}, h.S.Now()+maxIvl+time.Minute)
+		// let the cycle get going, then bring the new location in
+		h.S.Run(func(v schedView) bool { return in.loc.Fetches+more[0].Fetches+more[1].Fetches > 0 }, h.S.Now()+time.Minute)
+		hs := h.StartHandshake(in.n, "new-cdp-during-cycle", w.ChainFor(ex.Cert(ex.Never[0]), w.A))
+		h.Wait(hs.Task)
+		h.Probe("new-location-during-refresh-cycle")
+		sc["new_cdp_during_cycle"] = in.n.Name
+	}
 	h.Settle(3*maxIvl + 2*time.Minute)
 	end := h.S.Now()
 	for _, in := range insts {
